@@ -215,6 +215,16 @@ class World {
         // slot management
         EdgeSlot* newEdge(int client, int forest);
         int next_edge_id = 1;
+        // operand choice with optional binding (see Step::bind)
+        const Step* cur = nullptr;
+        int cur_uid = 0;
+        int made_in_step = 0;
+        int pick_no = 0, fpick_no = 0;
+        int cur_bind[6], cur_fbind[4];
+        std::vector<Step> resolved;     // the plan with the choices this run made
+        size_t pick(const std::vector<size_t> &cands, uint32_t raw);
+        size_t pickAny(uint32_t raw);   // among all edge slots
+        int freshEdgeId();
         std::string fn(int fi) const;               // "F2<MTbool rel red=2>"
         std::string en(const EdgeSlot &e) const;    // "e7@F2"
 
